@@ -1333,6 +1333,13 @@ def find(req):
             return {"reproduced": False, "note": "unknown finding"}
         bad, inputs, exp, obs = fn()
         return {"reproduced": bool(bad), "target": ob, "inputs": inputs, "expected": exp, "observed": obs}
+    if req.get("function_check_only"):          # (round 7) one named table check, nothing else (bounded stand-in obligations of the pack)
+        fn = globals().get(req["function_check_only"])
+        r = fn() if callable(fn) else None
+        if r is not None:
+            r["reproduced"] = True
+            return r
+        return {"reproduced": False, "note": "table check passed"}
     if "standard-type-of-." in ob:
         r = w_standard_type_of(ob)
         if r is not None:
